@@ -91,6 +91,20 @@ def numPacketFifo (pd qd : Nat) : NumMachine PFState where
     | _ => none
   key s := toString (repr s)
 
+/-- `open packetfifo_buffered pd qd` — same ports as `packetfifo`. -/
+def numPacketFifoBuffered (pd qd : Nat) : NumMachine PFBState where
+  init := (packetFifoBuffered pd qd).init
+  step s ins :=
+    match ins with
+    | [v, d, p, l, r] =>
+      let t : Tok PBeat := { data := { data := d, param := p }, first := false, last := n2b l }
+      let i : In PBeat := { valid := n2b v, ready := n2b r, tok := t }
+      let o := (packetFifoBuffered pd qd).out s i
+      some ((packetFifoBuffered pd qd).step s i,
+        [b2n o.ready, b2n o.valid, o.tok.data.data, o.tok.data.param, b2n o.tok.first, b2n o.tok.last])
+    | _ => none
+  key s := toString (repr s)
+
 def parseBeats : Nat → List Nat → Option (List Beat × List Nat)
   | 0, rest => some ([], rest)
   | k + 1, v :: d :: l :: rest =>
